@@ -18,6 +18,7 @@ import (
 	"github.com/metrico/qryn/writer/model"
 	"github.com/metrico/qryn/writer/service"
 	"github.com/metrico/qryn/writer/utils/numbercache"
+	"github.com/metrico/qryn/writer/utils/unmarshal"
 )
 
 const MaxRetries = 10
@@ -205,7 +206,9 @@ func doParse(r *http.Request, parser Parser) error {
 	//var promises []chan error
 	var promises []*promise.Promise[uint32]
 	var err error = nil
-	res := parser(r.Context(), reader, FPCache.DB(node))
+	fpCache := FPCache.DB(node)
+	var series []*model.TimeSeriesData
+	res := parser(r.Context(), reader, fpCache)
 	for response := range res {
 		if response.Error != nil {
 			go func() {
@@ -213,6 +216,9 @@ func doParse(r *http.Request, parser Parser) error {
 				}
 			}()
 			return response.Error
+		}
+		if ts, ok := response.TimeSeriesRequest.(*model.TimeSeriesData); ok {
+			series = append(series, ts)
 		}
 		promises = append(promises,
 			doPush(response.TimeSeriesRequest, service.INSERT_MODE_SYNC, tsService),
@@ -228,6 +234,10 @@ func doParse(r *http.Request, parser Parser) error {
 		if err != nil {
 			return err
 		}
+	}
+	// every insert of the request succeeded: its series rows are stored and need not be sent again today
+	for _, ts := range series {
+		unmarshal.ConfirmSeries(ts, fpCache)
 	}
 	return nil
 }
